@@ -118,6 +118,10 @@ def main(argv):
         still = res is not None and any(f.rule == r["rule"] and f.key == r["construct_key"] for f in res.findings)
         print("re-derived on the current tree: %s" % ("STILL PRESENT" if still else "not present"))
         return 1 if still else 0
+    if cmd == "invariance":
+        from . import invariance
+
+        return invariance.run()
     if cmd == "selftest":
         from . import selftest
 
